@@ -404,6 +404,7 @@ func (i *interpreter) concreteLen(x value, what string) int {
 		ps.pos++
 		ps.trace = append(ps.trace, v)
 		ps.assume(tb.Eq(t, tb.Const(64, v)))
+		ps.replayed()
 		return int(v)
 	}
 	ps.pos++
